@@ -255,7 +255,14 @@ def run(chk, prog, tier):
                             "every return of %s leaves the configuration fields (%s) as they were at entry" % (fn, ", ".join(PL.INSTANCE_FIELDS_CONFIG)),
                             "fields still modified on this path: %s" % sorted(s["dirty"]))
         elif f.get("storageClass") != "static":
-            allowed = setters.get(fn, set())
+            if fn in setters:
+                allowed = setters[fn]
+            elif len(prog.params(f)) >= 2:
+                # a public function this checker does not know that takes values besides the instance: a (new) setter; what it
+                # configures is its documented purpose, as for the known ones that it may be composed of
+                allowed = set(PL.INSTANCE_FIELDS_CONFIG)
+            else:
+                allowed = set()       # getters / destroy / anything that only takes the instance must leave the configuration alone
             chk.require(set(netdirty[fn]) <= allowed, "RESTORE", "RESTORE/setter/%s" % fn, loc_str(f),
                         "%s changes only the configuration fields it documents (%s)" % (fn, sorted(allowed)),
                         "also changes %s" % sorted(set(netdirty[fn]) - allowed))
